@@ -3,6 +3,7 @@ from mc import core, lib
 from mc.lib import on, off, ts, ks, cap, wait
 from scoda.elements.message import Message
 from scoda.enumerations.message_type import MessageType as MT
+from scoda.misc.music_theory import Key
 from scoda.sequences.relative_sequence import RelativeSequence
 from scoda.sequences.sequence import Sequence
 
@@ -31,7 +32,9 @@ def _content(i, p):
     if i == 1:
         return [(0, ts(None, 4, 4)), (0, on(None, p, 0, 64)), (5, on(None, p + 4, 1, 30)), (10, off(None, p, 0)),
                 (25, off(None, p + 4, 1))], 40
-    return [(0, on(None, p + 10, 0, 77)), (2, ks(None, "G")), (4, on(None, p + 12, 0, 50)), (8, off(None, p + 12, 0))], None
+    if i == 2:
+        return [(0, on(None, p + 10, 0, 77)), (2, ks(None, "G")), (4, on(None, p + 12, 0, 50)), (8, off(None, p + 12, 0))], None
+    return [(0, on(None, p + 1, 0, 64)), (3, on(None, p + 2, 1, 30)), (8, off(None, p + 2, 1)), (30, off(None, p + 1, 0))], 36
 
 
 def make_seed(i, p):
@@ -61,7 +64,7 @@ def make_seed(i, p):
 # ---- operations ----------------------------------------------------------------------------------
 
 def other():
-    return lib.seq_abs([(0, 6, 67, 0, 64)], dur=12)
+    return lib.seq_abs([(0, 6, 108, 0, 64)], dur=12)
 
 
 def _iter_abs_edit(s):
@@ -100,6 +103,49 @@ def _first_on(ev, vel):
     if len(firsts) != 1:
         return None
     return [e[:4] + (vel,) + e[5:] if e is firsts[0] else e for e in ev]
+
+
+class MidIterationDivergence(Exception):
+    pass
+
+
+def _mid_check(s, what):
+    """both views, read through the accessors between two steps of an iteration, must already agree"""
+    a = lib.view_abs(Sequence(absolute_sequence=s.abs.copy()))[:2]
+    r = lib.view_rel(Sequence(relative_sequence=s.rel.copy()))[:2]
+    if a != r:
+        raise MidIterationDivergence(f"{what}: abs {a} rel {r}")
+
+
+def _iter_abs_edit_reading_rel(s):
+    k = 0
+    for m in s.messages_abs():
+        if m.message_type is MT.NOTE_ON:
+            m.velocity = 95
+            k += 1
+            _mid_check(s, f"after editing note-on #{k} while iterating the absolute view")
+
+
+def _iter_rel_edit_reading_abs(s):
+    k = 0
+    for m in s.messages_rel():
+        if m.message_type is MT.NOTE_ON:
+            m.velocity = 94
+            k += 1
+            _mid_check(s, f"after editing note-on #{k} while iterating the relative view")
+
+
+def _split_edit_pieces(s):
+    pieces = s.split([10])
+    for k, pc in enumerate(pieces):
+        pc.set_channel(7 + k)
+        pc.transpose(2)
+        pc.scale(2, quantise_afterwards=False)
+
+
+def _add_abs_odd(s):
+    s.add_absolute_message(on(3, 73, 0, 51))
+    s.add_absolute_message(off(10, 73, 0))
 
 
 def _add_abs_note(s):
@@ -142,7 +188,7 @@ OPS = {
     "add_rel_wait": (lambda s: s.add_relative_message(wait(6)), lambda ev, d: (ev, d + 6), "rel"),
     "add_rel_ts0": (lambda s: s.add_relative_message(ts(None, 3, 4), index=0), lambda ev, d: (ev + [_E(0, "time_signature", 0, n=3, dd=4)], d), "rel"),
     "add_rel_note": (_add_rel_note, lambda ev, d: (ev + [_E(d, "note_on", 0, 75, 41), _E(d + 3, "note_off", 0, 75)], d + 3), "rel"),
-    "concat": (lambda s: s.concatenate([other()]), lambda ev, d: (ev + [_E(d, "note_on", 0, 67, 64), _E(d + 6, "note_off", 0, 67)], d + 12), "rel"),
+    "concat": (lambda s: s.concatenate([other()]), lambda ev, d: (ev + [_E(d, "note_on", 0, 108, 64), _E(d + 6, "note_off", 0, 108)], d + 12), "rel"),
     "merge": (lambda s: s.merge([other()]), None, "abs"),
     "cutoff": (lambda s: s.cutoff(12, 6), None, "abs"),
     "normalise": (lambda s: s.normalise(), None, "rel"),
@@ -164,6 +210,12 @@ OPS = {
     "iter_rel_edit": (_iter_rel_edit, lambda ev, d: ([e[:3] + (e[3] + 1,) + e[4:] if e[1] in NOTE else e for e in ev], d), "rel"),
     "iter_abs_edit_first": (_iter_abs_edit_first, lambda ev, d: (_first_on(ev, 98), d), "abs"),
     "iter_rel_edit_first": (_iter_rel_edit_first, lambda ev, d: (_first_on(ev, 97), d), "rel"),
+    "iter_abs_edit_reading_rel": (_iter_abs_edit_reading_rel, lambda ev, d: ([e[:4] + (95,) + e[5:] if e[1] == "note_on" else e for e in ev], d), "abs"),
+    "iter_rel_edit_reading_abs": (_iter_rel_edit_reading_abs, lambda ev, d: ([e[:4] + (94,) + e[5:] if e[1] == "note_on" else e for e in ev], d), "rel"),
+    "split_edit_pieces": (_split_edit_pieces, _ident, None),
+    "add_abs_odd": (_add_abs_odd, lambda ev, d: (ev + [_E(3, "note_on", 0, 73, 51), _E(10, "note_off", 0, 73)], max(d, 10)), "abs"),
+    "pad200": (lambda s: s.pad(200), lambda ev, d: (ev, max(d, 200)), "rel"),
+    "dur_relation": (lambda s: s.get_sequence_duration_relation(), _ident, None),
     "iter_abs_first": (lambda s: next(s.messages_abs(), None), _ident, None),
     "iter_rel_first": (lambda s: next(s.messages_rel(), None), _ident, None),
     "iter_abs_noedit": (_noedit_abs, _ident, None),
@@ -206,12 +258,12 @@ def context(tier, seed):
     p = [60, 40, 90][seed % 3]
     depth = 3 if tier == "quick" else 4
     return {"p": p, "depth": depth, "tier": tier,
-            "bounds": {"depth": depth, "operations": OPNAMES, "seeds": "3 contents x {abs-only, rel-only, both}",
+            "bounds": {"depth": depth, "operations": OPNAMES, "seeds": "4 contents x {abs-only, rel-only, both}",
                        "pitch_base": p}}
 
 
 def seeds(ctx):
-    return 9
+    return 12
 
 
 def build(seed_i, hist, ctx):
@@ -240,9 +292,29 @@ def _hidden_caps(s):
     return len(caps) > 1 or (bool(caps) and bool(rest) and min(caps) <= max(rest))
 
 
+def _rebuilt(s):
+    """a brand-new Sequence holding the same content (no history, no caches, no shared message objects)"""
+    ev, d, _ = lib.view_abs(s)
+    items = sorted(ev, key=lambda e: (e[0], {"note_off": 0, "note_on": 2}.get(e[1], 1)))
+    n = Sequence()
+    for e in items:
+        n.add_absolute_message(Message(message_type=MT(e[1]), channel=e[2], time=e[0], note=e[3], velocity=e[4],
+                                       numerator=e[5], denominator=e[6], key=Key(e[7]) if e[7] else None, program=e[8]))
+    if not ev or d > max(e[0] for e in ev):
+        if d > 0 or not ev:
+            n.add_absolute_message(cap(d))
+    return n
+
+
 def _variants(s):
     """the same logical content prepared in the three freshness states (public API only)"""
     out = {}
+    if not _hidden_caps(s):
+        try:
+            if lib.view_abs(s)[:2] == lib.view_rel(s)[:2]:
+                out["rebuilt"] = _rebuilt(s)
+        except Exception:  # noqa: BLE001
+            pass
     for name in ("AR", "A") + (() if _hidden_caps(s) else ("R",)):
         c = core.clone(s)
         c.refresh()
@@ -276,6 +348,8 @@ def check_step(s, op, ctx):
     variants = _variants(s)
     try:
         s2 = apply_op(s, op)
+    except MidIterationDivergence as e:
+        return [("views_disagree_during_iteration", f"{op} from {f0}: {e}")], None, [f0, op, "diverges"], facts
     except Exception as e:  # noqa: BLE001
         msg = f"{type(e).__name__}: {e}"
         if "stale" in str(e).lower():
@@ -325,6 +399,9 @@ def check_step(s, op, ctx):
             try:
                 c2 = apply_op(c, op)
                 va, vr = both_views(c2)
+            except MidIterationDivergence as e:
+                viols.append(("views_disagree_during_iteration", f"{op} from {vn}: {e}"))
+                continue
             except Exception as e:  # noqa: BLE001
                 viols.append(("differential:raises_in_other_freshness_state",
                               f"{op}: fine from {f0}, but from {vn}: {type(e).__name__}: {e}"))
@@ -383,7 +460,7 @@ def post(tot, ctx):
     for k, n in tot._edges.items():
         f0, op, f1 = json.loads(k)
         edges.setdefault((f0, op), {})[f1] = n
-    nonfunc = {k: v for k, v in edges.items() if len([x for x in v if not x.startswith("raises")]) > 1}
+    nonfunc = {k: v for k, v in edges.items() if len([x for x in v if x in ("A", "R", "AR", "broken")]) > 1}
     reach, todo = set(), ["A", "R", "AR"]
     while todo:
         a = todo.pop()
@@ -392,7 +469,7 @@ def post(tot, ctx):
         reach.add(a)
         for op in OPNAMES:
             for f1 in edges.get((a, op), {}):
-                if not f1.startswith("raises") and f1 not in reach:
+                if f1 in ("A", "R", "AR", "broken") and f1 not in reach:
                     todo.append(f1)
     missing = [(a, op) for a in sorted(reach) for op in OPNAMES if (a, op) not in edges and a != "broken"]
     tot.extra["freshness_automaton"] = {"reachable_states": sorted(reach), "abstract_edges": len(edges),
